@@ -112,4 +112,177 @@ theorem merge_snap {m om : Mol} (h : MolWF m) (ho : MolWF om) (hd : ∀ x ∈ m.
     intro hmem
     exact hd b hmem (ho.nbr_mem ha hb)
 
+/-! ## events that neither relabel nor restore: labels travel with the edit -/
+
+def labTouch : Ev → Bool
+  | .labelsWrite | .restore _ => true
+  | _ => false
+
+def isEdit : Ev → Bool
+  | .edit => true
+  | _ => false
+
+def noLabTouch (es : List GEv) : Bool := es.all fun ge => !labTouch ge.e
+def quietList (es : List GEv) : Bool := es.all fun ge => !labTouch ge.e && !isEdit ge.e
+
+/-- what the raw edit does to the stored label snapshot: renumbered with the atoms (`remap`), concatenated with the
+snapshot of the atoms coming from the other graph (`union`) -/
+def editLabels (cx : Ctx) (l : Option LSnap) : Option LSnap :=
+  let l1 := match cx.editMap with
+    | some mp => l.map (LSnap.remap mp)
+    | none => l
+  match cx.editExtra with
+  | some ex => mergeLabels l1 ex.labels
+  | none => l1
+
+theorem applyEdit_ml (cx : Ctx) (c : Cfg) :
+    ((applyEdit cx c).o.mol = c.o.mol ∧ (applyEdit cx c).o.labels = c.o.labels ∧ ((applyEdit cx c).edited = true ∨ (applyEdit cx c) = c)) ∨
+    (c.edited = false ∧ (applyEdit cx c).edited = true ∧ cx.editMol = some (applyEdit cx c).o.mol ∧
+      (applyEdit cx c).o.labels = editLabels cx c.o.labels) := by
+  unfold applyEdit
+  split
+  · exact Or.inl ⟨rfl, rfl, Or.inr rfl⟩
+  · rename_i hed
+    split
+    · exact Or.inl ⟨rfl, rfl, Or.inl rfl⟩
+    · rename_i m' hm
+      refine Or.inr ⟨by simpa using hed, rfl, hm, ?_⟩
+      simp only [editLabels]
+      cases cx.editMap <;> cases cx.editExtra <;> rfl
+
+/-- events other than the raw edit, `calc_labels`' write and `restore` leave graph, labels and the edit flag alone; the
+snapshot slot is unchanged, dropped, or a copy of the present state -/
+theorem stepEv_quiet {T : Tables} {cx : Ctx} {opt : Bool} {c : Cfg} {e : Ev} (h1 : labTouch e = false) (h2 : isEdit e = false) :
+    (stepEv T cx opt c e).cfg.o.mol = c.o.mol ∧ (stepEv T cx opt c e).cfg.o.labels = c.o.labels ∧
+    (stepEv T cx opt c e).cfg.edited = c.edited ∧
+    ((stepEv T cx opt c e).cfg.o.backup = c.o.backup ∨ (stepEv T cx opt c e).cfg.o.backup = some none ∨
+      ∃ kS kC, (stepEv T cx opt c e).cfg.o.backup = some (some (copyCore T c.o.toCore c.vecs kS kC).1)) := by
+  cases e with
+  | edit => simp [isEdit] at h2
+  | call f a => exact ⟨rfl, rfl, rfl, Or.inl rfl⟩
+  | flushAll => exact ⟨rfl, rfl, rfl, Or.inl rfl⟩
+  | flush a b =>
+    simp only [stepEv]
+    cases flagBool a <;> cases flagBool b <;> cases opt <;> exact ⟨rfl, rfl, rfl, Or.inl rfl⟩
+  | pop k => simp only [stepEv]; split <;> exact ⟨rfl, rfl, rfl, Or.inl rfl⟩
+  | dictSet k =>
+    refine ⟨readKey_mol _ _ _ _ _, ?_, rfl, Or.inl (readKey_backup _ _ _ _ _)⟩
+    simp only [stepEv, Res.cfg]; unfold readKey; split <;> rfl
+  | readC k =>
+    refine ⟨readKey_mol _ _ _ _ _, ?_, rfl, Or.inl (readKey_backup _ _ _ _ _)⟩
+    simp only [stepEv, Res.cfg]; unfold readKey; split <;> rfl
+  | changedAdd =>
+    simp only [stepEv]
+    split
+    · exact ⟨rfl, rfl, rfl, Or.inl rfl⟩
+    · split <;> exact ⟨rfl, rfl, rfl, Or.inl rfl⟩
+  | changedDiscard => simp only [stepEv]; split <;> exact ⟨rfl, rfl, rfl, Or.inl rfl⟩
+  | changedAttr =>
+    simp only [stepEv]
+    split
+    · exact ⟨rfl, rfl, rfl, Or.inl rfl⟩
+    · exact ⟨rfl, rfl, rfl, Or.inl rfl⟩
+    · split <;> exact ⟨rfl, rfl, rfl, Or.inl rfl⟩
+  | changedNone => exact ⟨rfl, rfl, rfl, Or.inl rfl⟩
+  | changedRead => simp only [stepEv]; split <;> exact ⟨rfl, rfl, rfl, Or.inl rfl⟩
+  | backupRead => simp only [stepEv]; split <;> exact ⟨rfl, rfl, rfl, Or.inl rfl⟩
+  | backupCopy a b =>
+    simp only [stepEv]
+    cases ha : flagBool a <;> cases hb : flagBool b <;> try exact ⟨rfl, rfl, rfl, Or.inl rfl⟩
+    rename_i kS kC
+    exact ⟨rfl, rfl, rfl, Or.inr (Or.inr ⟨kS, kC, rfl⟩)⟩
+  | backupNone => exact ⟨rfl, rfl, rfl, Or.inr (Or.inl rfl)⟩
+  | restore slots => simp [labTouch] at h1
+  | hcalc =>
+    simp only [stepEv]
+    split
+    · exact ⟨rfl, rfl, rfl, Or.inl rfl⟩
+    · split <;> (split <;> exact ⟨rfl, rfl, rfl, Or.inl rfl⟩)
+  | labelsWrite => simp [labTouch] at h1
+  | stereoWrite => exact ⟨rfl, rfl, rfl, Or.inl rfl⟩
+
+/-- frame state along an event list without relabelling: still the entry graph and labels, or the edit's graph with the
+labels the edit carries over -/
+def Fr (cx : Ctx) (m0 : Mol) (l0 : Option LSnap) (c : Cfg) : Prop :=
+  (c.o.mol = m0 ∧ c.o.labels = l0) ∨ (c.edited = true ∧ cx.editMol = some c.o.mol ∧ c.o.labels = editLabels cx l0)
+
+theorem stepEv_fr {T : Tables} {cx : Ctx} {opt : Bool} {c : Cfg} {e : Ev} {m0 : Mol} {l0 : Option LSnap}
+    (h1 : labTouch e = false) (h : Fr cx m0 l0 c) : Fr cx m0 l0 (stepEv T cx opt c e).cfg := by
+  by_cases h2 : isEdit e = true
+  · cases e <;> simp [isEdit] at h2
+    simp only [stepEv, Res.cfg]
+    rcases h with ⟨hm, hl⟩ | ⟨hed, hm, hl⟩
+    · rcases applyEdit_ml cx c with ⟨am, al, _⟩ | ⟨_, aed, am, al⟩
+      · exact Or.inl ⟨by rw [am]; exact hm, by rw [al]; exact hl⟩
+      · exact Or.inr ⟨aed, am, by rw [al, hl]⟩
+    · have : applyEdit cx c = c := by unfold applyEdit; simp [hed]
+      rw [this]
+      exact Or.inr ⟨hed, hm, hl⟩
+  · obtain ⟨qm, ql, qe, _⟩ := stepEv_quiet (T := T) (cx := cx) (opt := opt) (c := c) h1 (by simpa using h2)
+    rcases h with ⟨hm, hl⟩ | ⟨hed, hm, hl⟩
+    · exact Or.inl ⟨by rw [qm]; exact hm, by rw [ql]; exact hl⟩
+    · exact Or.inr ⟨by rw [qe]; exact hed, by rw [qm]; exact hm, by rw [ql]; exact hl⟩
+
+theorem interp_fr {T : Tables} {cx : Ctx} {m0 : Mol} {l0 : Option LSnap} :
+    ∀ (es : List GEv) (c : Cfg), noLabTouch es = true → Fr cx m0 l0 c → Fr cx m0 l0 (interp T cx es c).cfg := by
+  intro es
+  induction es with
+  | nil => intro c _ h; exact h
+  | cons ge rest ih =>
+    intro c hg h
+    simp only [noLabTouch, List.all_cons, Bool.and_eq_true, Bool.not_eq_true'] at hg
+    simp only [interp]
+    split
+    · exact h
+    · exact ih c (by simpa [noLabTouch] using hg.2) h
+    · rename_i opt _
+      have hs := stepEv_fr (T := T) (opt := opt) hg.1 h
+      split
+      · rename_i c' heq
+        rw [heq] at hs
+        exact ih c' (by simpa [noLabTouch] using hg.2) hs
+      · rename_i c' e' heq
+        rw [heq] at hs
+        exact hs
+
+/-- labels fresh now and in the snapshot -/
+def KInv (o : Obj) : Prop := labelsFresh o.toCore = true ∧ ∀ bk, o.backup = some (some bk) → labelsFresh bk = true
+
+theorem stepEv_K {T : Tables} {cx : Ctx} {opt : Bool} {c : Cfg} {e : Ev} (h1 : labTouch e = false) (h2 : isEdit e = false)
+    (h : KInv c.o) : KInv (stepEv T cx opt c e).cfg.o := by
+  obtain ⟨qm, ql, _, qb⟩ := stepEv_quiet (T := T) (cx := cx) (opt := opt) (c := c) h1 h2
+  have hf : labelsFresh (stepEv T cx opt c e).cfg.o.toCore = true := by
+    rw [labelsFresh_congr (c2 := c.o.toCore) qm ql]; exact h.1
+  refine ⟨hf, fun bk hbk => ?_⟩
+  rcases qb with qb | qb | ⟨kS, kC, qb⟩
+  · exact h.2 bk (by rw [← qb]; exact hbk)
+  · rw [qb] at hbk; cases hbk
+  · rw [qb] at hbk
+    simp only [Option.some.injEq] at hbk
+    subst hbk
+    obtain ⟨hm, _, hl, _⟩ := copyCore_fields T c.o.toCore c.vecs kS kC
+    rw [labelsFresh_congr (c2 := c.o.toCore) hm hl]; exact h.1
+
+theorem interp_K {T : Tables} {cx : Ctx} :
+    ∀ (es : List GEv) (c : Cfg), quietList es = true → KInv c.o → KInv (interp T cx es c).cfg.o := by
+  intro es
+  induction es with
+  | nil => intro c _ h; exact h
+  | cons ge rest ih =>
+    intro c hg h
+    simp only [quietList, List.all_cons, Bool.and_eq_true, Bool.not_eq_true'] at hg
+    simp only [interp]
+    split
+    · exact h
+    · exact ih c (by simpa [quietList] using hg.2) h
+    · rename_i opt _
+      have hs := stepEv_K (T := T) (cx := cx) (opt := opt) hg.1.1 hg.1.2 h
+      split
+      · rename_i c' heq
+        rw [heq] at hs
+        exact ih c' (by simpa [quietList] using hg.2) hs
+      · rename_i c' e' heq
+        rw [heq] at hs
+        exact hs
+
 end ChythonModel.Proofs.C13
